@@ -1,0 +1,132 @@
+//! Verification hooks (compiled only with `--cfg agentpack_verif`).
+//!
+//! - `point`: fault-injection / trace point called before mutating filesystem operations.
+//! - `skew`: clock skew for MCP confirm-token issue/validation.
+//! - thin `pub` wrappers around crate-private pure functions, for differential checking.
+
+use std::path::Path;
+use std::sync::atomic::{AtomicUsize, Ordering};
+use std::time::{Duration, Instant};
+
+static POINT_COUNTER: AtomicUsize = AtomicUsize::new(0);
+
+pub fn reset_points() {
+    POINT_COUNTER.store(0, Ordering::SeqCst);
+}
+
+/// Called immediately before a mutating filesystem operation.
+///
+/// `AGENTPACK_VERIF_TRACE=<file>` appends one line `<k>\t<kind>\t<path>` per point.
+/// `AGENTPACK_VERIF_FAULT=<k>:<abort|EACCES|ENOSPC|EIO>` fires at the k-th point (1-based).
+pub fn point(kind: &str, path: &Path) -> std::io::Result<()> {
+    let k = POINT_COUNTER.fetch_add(1, Ordering::SeqCst) + 1;
+
+    if let Ok(trace) = std::env::var("AGENTPACK_VERIF_TRACE") {
+        if !trace.is_empty() {
+            use std::io::Write as _;
+            if let Ok(mut f) = std::fs::OpenOptions::new()
+                .create(true)
+                .append(true)
+                .open(&trace)
+            {
+                let _ = writeln!(f, "{k}\t{kind}\t{}", path.display());
+            }
+        }
+    }
+
+    if let Ok(spec) = std::env::var("AGENTPACK_VERIF_FAULT") {
+        if let Some((n, what)) = spec.split_once(':') {
+            if n.trim().parse::<usize>().ok() == Some(k) {
+                match what.trim() {
+                    "abort" => std::process::abort(),
+                    "EACCES" => return Err(std::io::Error::from_raw_os_error(13)),
+                    "ENOSPC" => return Err(std::io::Error::from_raw_os_error(28)),
+                    "EIO" => return Err(std::io::Error::from_raw_os_error(5)),
+                    _ => {}
+                }
+            }
+        }
+    }
+    Ok(())
+}
+
+/// For call sites that ignore the operation's error (`.ok()`): on an injected error, return a
+/// path on which the operation fails harmlessly, so the failure is ignored exactly as a real one.
+pub fn point_or_redirect(kind: &str, path: &Path) -> std::path::PathBuf {
+    match point(kind, path) {
+        Ok(()) => path.to_path_buf(),
+        Err(_) => std::path::PathBuf::from("/nonexistent-agentpack-verif/injected-fault"),
+    }
+}
+
+/// Shift `now` by the number of seconds found in the file named by `AGENTPACK_VERIF_CLOCK_FILE`.
+pub fn skew(now: Instant) -> Instant {
+    let Ok(path) = std::env::var("AGENTPACK_VERIF_CLOCK_FILE") else {
+        return now;
+    };
+    let Ok(raw) = std::fs::read_to_string(path) else {
+        return now;
+    };
+    let Ok(secs) = raw.trim().parse::<u64>() else {
+        return now;
+    };
+    now + Duration::from_secs(secs)
+}
+
+pub fn normalize_git_remote_for_policy(url: &str) -> String {
+    crate::policy_allowlist::normalize_git_remote_for_policy(url)
+}
+
+pub fn remote_matches_allowlist(remote: &str, allow: &str) -> bool {
+    crate::policy_allowlist::remote_matches_allowlist(remote, allow)
+}
+
+pub fn best_root_idx(
+    roots: &[crate::targets::TargetRoot],
+    target: &str,
+    path: &Path,
+) -> Option<usize> {
+    crate::roots::best_root_idx(roots, target, path)
+}
+
+pub fn manifests_missing_for_desired(
+    roots: &[crate::targets::TargetRoot],
+    desired: &crate::deploy::DesiredState,
+) -> bool {
+    crate::target_manifest::manifests_missing_for_desired(roots, desired)
+}
+
+pub fn read_target_manifest_soft_ok(path: &Path, expected_target: &str) -> Option<Vec<String>> {
+    let (m, _w) = crate::target_manifest::read_target_manifest_soft(path, expected_target);
+    m.map(|m| m.managed_files.into_iter().map(|f| f.path).collect())
+}
+
+pub fn ensure_safe_relative_path(p: &str) -> bool {
+    crate::target_manifest::verif_ensure_safe_relative_path(p)
+}
+
+pub fn cmp_failure_rate(a_fail: u64, a_total: u64, b_fail: u64, b_total: u64) -> i32 {
+    match crate::cli::verif_cmp_failure_rate(a_fail, a_total, b_fail, b_total) {
+        std::cmp::Ordering::Less => -1,
+        std::cmp::Ordering::Equal => 0,
+        std::cmp::Ordering::Greater => 1,
+    }
+}
+
+pub fn mutating_command_ids() -> Vec<String> {
+    crate::cli::verif_mutating_command_ids()
+}
+
+pub fn extract_bash_commands(markdown: &str) -> Vec<(usize, String)> {
+    crate::policy::verif_extract_bash_commands(markdown)
+}
+
+pub fn extract_agentpack_invocations(line: &str) -> Vec<Vec<String>> {
+    crate::policy::verif_extract_agentpack_invocations(line)
+}
+
+pub fn agentpack_command_id(argv: &[String]) -> Option<String> {
+    crate::policy::verif_agentpack_command_id(argv)
+}
+
+pub use crate::mcp::verif_token::{TokenOp, TokenOut, run_token_ops};
